@@ -36,6 +36,31 @@ fn kind_label(k: TKind) -> &'static str {
     }
 }
 
+/// a constant that is not a value of `ty`, the fault as deep inside list literals as the type allows
+fn ill_typed(rng: &mut Rng, ix: &SchemaIx, ty: &Ty) -> Val {
+    match ty {
+        Ty::NonNull(inner) => if rng.chance(1, 3) { Val::null() } else { ill_typed(rng, ix, inner) },
+        Ty::List(inner, _) => {
+            if rng.chance(1, 3) {
+                // one level deeper than the type: a list where an item (or a single value) is expected
+                Val::list(vec![crate::gen_schema::gen_const(rng, ix, &Ty::non_null(ty.clone()), 1, false)])
+            } else {
+                let mut items = vec![];
+                if rng.coin() {
+                    items.push(crate::gen_schema::gen_const(rng, ix, &Ty::non_null((**inner).clone()), 1, false));
+                }
+                items.push(ill_typed(rng, ix, inner));
+                Val::list(items)
+            }
+        }
+        Ty::Named(n) => match n.s.as_str() {
+            "Boolean" => Val::str("yes"),
+            "Int" => Val::str("one"),
+            _ => Val::boolean(true),
+        },
+    }
+}
+
 const N_INJECTORS: usize = 36;
 
 pub fn inject(rng: &mut Rng, base: &TsDoc) -> Option<Fault> {
@@ -346,10 +371,46 @@ pub fn inject_one(rng: &mut Rng, base: &TsDoc, which: usize) -> Option<Fault> {
                     let f = &mut holder.fields[fi];
                     let an = ifield.args[rng.below(ifield.args.len())].name.s.clone();
                     let a = f.args.iter_mut().find(|a| a.name.s == an)?;
-                    let other = if a.ty.base() == "Int" { "String" } else { "Int" };
-                    a.ty = a.ty.with_base(other);
+                    // argument types are invariant: another named type, another nullability, the same wrappers in another
+                    // arrangement (`[T!]` / `[T]!`, `[T]` / `T!`), a list for a named type
+                    let old = a.ty.clone();
+                    let how = match rng.below(4) {
+                        0 => {
+                            let other = if a.ty.base() == "Int" { "String" } else { "Int" };
+                            a.ty = a.ty.with_base(other);
+                            "named-type"
+                        }
+                        1 => {
+                            a.ty = match &old {
+                                Ty::NonNull(inner) => (**inner).clone(),
+                                t => Ty::non_null(t.clone()),
+                            };
+                            "nullability"
+                        }
+                        2 => {
+                            a.ty = match &old {
+                                Ty::List(inner, _) => match &**inner {
+                                    Ty::NonNull(x) => Ty::non_null(Ty::list((**x).clone())),
+                                    x => Ty::non_null(x.clone()),
+                                },
+                                Ty::NonNull(inner) => match &**inner {
+                                    Ty::List(x, _) => Ty::list(Ty::non_null((**x).clone())),
+                                    x => Ty::list(x.clone()),
+                                },
+                                t => Ty::list(t.clone()),
+                            };
+                            "wrappers-rearranged"
+                        }
+                        _ => {
+                            a.ty = Ty::list(old.clone());
+                            "list-for-item"
+                        }
+                    };
+                    if a.ty == old {
+                        return None;
+                    }
                     a.default = None;
-                    done!("TS7", format!("interface-argument-type|{}", kind_label(kind)));
+                    done!("TS7", format!("interface-argument-type|{how}|{}", kind_label(kind)));
                 }
                 _ => {
                     let f = &mut holder.fields[fi];
@@ -472,7 +533,7 @@ pub fn inject_one(rng: &mut Rng, base: &TsDoc, which: usize) -> Option<Fault> {
                 }
                 _ => {
                     // ill-typed argument value: @deprecated(reason: 1) where legal, else a custom directive with a typed arg
-                    let cands: Vec<&DirectiveDef> = ix.directives.values().filter(|d| d.locations.iter().any(|l| l.s == loc) && d.args.iter().any(|a| matches!(a.ty.base(), "Int" | "String" | "Boolean") && a.ty.list_depth() == 0)).collect();
+                    let cands: Vec<&DirectiveDef> = ix.directives.values().filter(|d| d.locations.iter().any(|l| l.s == loc) && d.args.iter().any(|a| matches!(a.ty.base(), "Int" | "String" | "Boolean"))).collect();
                     let d = rng.pick_opt(&cands)?;
                     if (loc == "ARGUMENT_DEFINITION" || loc == "INPUT_FIELD_DEFINITION") && d.name.s == "deprecated" {
                         return None;
@@ -480,8 +541,14 @@ pub fn inject_one(rng: &mut Rng, base: &TsDoc, which: usize) -> Option<Fault> {
                     if dirs.iter().any(|x| x.name.s == d.name.s) && !d.repeatable {
                         return None;
                     }
-                    let a = d.args.iter().find(|a| matches!(a.ty.base(), "Int" | "String" | "Boolean") && a.ty.list_depth() == 0)?;
-                    let bad = if a.ty.base() == "Boolean" { Val::str("yes") } else if a.ty.base() == "Int" { Val::str("one") } else { Val::boolean(true) };
+                    // (an argument of a list type when there is one: the fault then sits inside a list literal - a null item of
+                    // a non-null item type, a literal nested one level deeper than the type, a wrong kind of item)
+                    let list_args: Vec<&InputValueDef> = d.args.iter().filter(|a| matches!(a.ty.base(), "Int" | "String" | "Boolean") && a.ty.list_depth() > 0).collect();
+                    let a = match rng.pick_opt(&list_args) {
+                        Some(a) if rng.chance(2, 3) => *a,
+                        _ => d.args.iter().find(|a| matches!(a.ty.base(), "Int" | "String" | "Boolean") && a.ty.list_depth() == 0)?,
+                    };
+                    let bad = ill_typed(rng, &ix, &a.ty);
                     let mut args = vec![(a.name.s.as_str(), bad)];
                     // supply the other required arguments correctly
                     let ix2 = &ix;
